@@ -66,10 +66,13 @@ def respell_fortran(text, k):
             cands.append(sign + mant + (exp if exp.startswith('-')
                                         else '+' + exp))
     else:
+        cands = []
         if '.' not in body:
+            # integer mantissa with a bare signed exponent (5+0, 5-0)
+            cands += [sign + body + '+0', sign + body + '-0', sign + body + 'd0']
             body = body + '.'
-        cands = [sign + body + '+0', sign + body + 'd0', sign + body + 'D+0',
-                 sign + body + '-0']
+        cands += [sign + body + '+0', sign + body + 'd0', sign + body + 'D+0',
+                  sign + body + '-0']
     pick = cands[k % len(cands)]
     try:
         if parse_real(pick) == val:
